@@ -102,22 +102,6 @@ def generate(ctx):
     if ctx.special:
         yield "repo_tests", dict(files=ctx.pick(['tests/test_number_vs_binary_message.py', 'tests/test_number_vs_dna_sequence.py'], ['tests/test_number_vs_binary_message.py', 'tests/test_number_vs_dna_sequence.py', 'tests/test_coding.py', 'tests/test_generating.py']))
         return
-    widths = WIDTHS + ctx.pick([300, 1000], [1000, 2000, 4096])
-    for _ in range(ctx.pick(400, 3000)):
-        L = rng.choice(widths if rng.random() < 0.97 else widths[-1:]) if rng.random() < 0.75 else rng.randint(0, 200)
-        if L > 300 and rng.random() < ctx.pick(0.96, 0.85):
-            L = rng.choice(WIDTHS)
-        kind = rng.choice(["zeros", "ones", "leadzero", "single", "random", "random"])
-        yield "bits", dict(bits=_symbols(rng, L, kind, 2), kind=kind, container=rng.choice(["list", "list", "int64", "int8"]))
-        Ld = L if L <= 300 else L // 2
-        yield "dna", dict(s="".join("ACGT"[x] for x in _symbols(rng, Ld, kind, 4)), kind=kind)
-        which = rng.choice(["zero", "one", "max", "random", "pow"])
-        for base, name in ((2, "number_bits"), (4, "number_dna")):
-            Lw = L if base == 2 or L <= 300 else L // 2
-            cap = base ** Lw
-            x = {"zero": 0, "one": min(1, cap - 1), "max": cap - 1, "random": rng.randrange(cap),
-                 "pow": min(cap - 1, base ** rng.randint(0, max(Lw - 1, 0)))}[which]
-            yield name, dict(x=str(x), L=Lw, which=which)
     for _ in range(ctx.pick(120, 1000)):
         # prefixes whose value is a 'limb number' (blocks landing exactly on 10^b under x2 / x4), followed by a few more symbols
         v = int(gens.limb_number(rng, 5))
@@ -138,6 +122,22 @@ def generate(ctx):
         yield "number_bits", dict(x=str(rng.randrange(2 ** (L - 1), 2 ** L)), L=L, which="beyond-640-digits")
     for _ in range(ctx.pick(5, 30)):
         yield "via_library", dict(k=rng.choice([2, 3]), bits=[rng.randint(0, 1) for _ in range(rng.choice([8, 33, 64, 120]))])
+    widths = WIDTHS + ctx.pick([300, 1000], [1000, 2000, 4096])
+    for _ in range(ctx.pick(400, 3000)):
+        L = rng.choice(widths if rng.random() < 0.97 else widths[-1:]) if rng.random() < 0.75 else rng.randint(0, 200)
+        if L > 300 and rng.random() < ctx.pick(0.96, 0.85):
+            L = rng.choice(WIDTHS)
+        kind = rng.choice(["zeros", "ones", "leadzero", "single", "random", "random"])
+        yield "bits", dict(bits=_symbols(rng, L, kind, 2), kind=kind, container=rng.choice(["list", "list", "int64", "int8"]))
+        Ld = L if L <= 300 else L // 2
+        yield "dna", dict(s="".join("ACGT"[x] for x in _symbols(rng, Ld, kind, 4)), kind=kind)
+        which = rng.choice(["zero", "one", "max", "random", "pow"])
+        for base, name in ((2, "number_bits"), (4, "number_dna")):
+            Lw = L if base == 2 or L <= 300 else L // 2
+            cap = base ** Lw
+            x = {"zero": 0, "one": min(1, cap - 1), "max": cap - 1, "random": rng.randrange(cap),
+                 "pow": min(cap - 1, base ** rng.randint(0, max(Lw - 1, 0)))}[which]
+            yield name, dict(x=str(x), L=Lw, which=which)
 
 
 def _bad(ctx, out, what):
